@@ -54,6 +54,9 @@ func init() {
 			}
 			// random programs with one injected out-of-subset construct: the error paths of the
 			// translator in contexts the catalogue does not enumerate
+			if err := errorsEndToEnd(ctx); err != nil {
+				return err
+			}
 			seeds := 1 + 2*ctx.TierN()
 			for seed := 1; seed <= seeds; seed++ {
 				if err := tvRunOpts(ctx, gen.RandomLookalikes(int64(seed), 150+350*ctx.TierN(), 3), tvOpts{Mode: "lookalike", Census: "errors"}); err != nil {
